@@ -67,6 +67,7 @@ func endpointIndex(e receive.Endpoint) int {
 type scriptRing struct {
 	mu        sync.Mutex
 	placement map[string][]int // series name -> endpoint of replica 0,1,…
+	fallback  bool             // series without an entry go to endpoint 0 (C26: arbitrary label sets)
 }
 
 func seriesName(ts *prompb.TimeSeries) string {
@@ -82,6 +83,9 @@ func (r *scriptRing) GetN(_ string, ts *prompb.TimeSeries, n uint64) (receive.En
 	r.mu.Lock()
 	defer r.mu.Unlock()
 	pl, ok := r.placement[seriesName(ts)]
+	if !ok && r.fallback {
+		return endpointOf(0), nil
+	}
 	if !ok || n >= uint64(len(pl)) {
 		return receive.Endpoint{}, fmt.Errorf("scripted hashring: no node %d for series %q", n, seriesName(ts))
 	}
@@ -111,6 +115,8 @@ type fanRun struct {
 	recv     map[wkey][]string // series names received by the fake peer
 	stored   map[wkey]bool     // the fake peer answered ok after having been released
 	unknown  []string          // calls that match no scripted write
+	capture  bool              // record the canonical form of every series received (C26)
+	captured []string
 	wake     chan struct{}     // pulsed on every state change
 }
 
@@ -200,13 +206,17 @@ func (p *fakePeer) RemoteWrite(ctx context.Context, in *storepb.WriteRequest, _ 
 		return nil, fmt.Errorf("no scripted run")
 	}
 	k := wkey{p.e, int(in.Replica) - 1}
-	var names []string
+	var names, full []string
 	for _, tt := range in.TimeseriesTenantData {
 		for i := range tt.Timeseries {
 			names = append(names, seriesName(&tt.Timeseries[i]))
+			if f.capture {
+				full = append(full, showTS1(&tt.Timeseries[i]))
+			}
 		}
 	}
 	f.mu.Lock()
+	f.captured = append(f.captured, full...)
 	rel, ok := f.release[k]
 	if !ok || f.entered[k] {
 		f.unknown = append(f.unknown, fmt.Sprintf("%d:%d:%s", k.e, k.r, strings.Join(names, ".")))
